@@ -14,6 +14,7 @@ class PausingTransport(StringTransport):
     self.hw = hw
     self.unflushed = 0
     self.pauses_from_write = 0
+    self.close_requested_at = None
 
   def _wrote(self, n):
     self.unflushed += n
@@ -33,6 +34,11 @@ class PausingTransport(StringTransport):
 
   def flush(self):
     self.unflushed = 0
+
+  def loseConnection(self):
+    if self.close_requested_at is None:
+      self.close_requested_at = len(self.value())     # what had been handed to the transport when the close was requested
+    StringTransport.loseConnection(self)
 
 
 class FakeConnector(object):
